@@ -24,7 +24,70 @@ pub fn all_entries() -> Vec<Entry> {
     v
 }
 
+
+/// Cross-carrier consistency for instants with digits below a millisecond: the CQL timestamp has millisecond
+/// precision and the book says "any precision finer than 1ms will be lost" without naming a rounding rule, so no
+/// rule is imposed here - but every carrier holding the SAME instant must produce the same cell, and an instant
+/// that is a whole number of milliseconds must produce exactly that number.
+fn check_instants(r: &Report) {
+    use crate::dynconv::{column_type, ser_cell_writer};
+    use scylla_cql_core::value::CqlTimestamp;
+    let t = Type::Native(refv::Native::Timestamp);
+    let ct = column_type(&t);
+    let secs: [i64; 9] = [0, 1, -1, -2, 1_600_000_000, -1_600_000_000, -86_400, 253_402_300_799, -62_135_596_800];
+    let nanos: [u32; 11] = [0, 1, 999, 1_000, 999_999, 1_000_000, 1_000_001, 500_000_000, 999_000_000, 999_999_000, 999_999_999];
+    let mut compared = 0u64;
+    for s in secs {
+        for n in nanos {
+            r.eval(1);
+            let case = json!({"leg": "static", "part": "instants", "unix_seconds": s, "nanos": n});
+            let total_nanos = s as i128 * 1_000_000_000 + n as i128;
+            let Some(ch) = chrono::DateTime::<chrono::Utc>::from_timestamp(s, n) else { continue };
+            let Ok(ti) = time::OffsetDateTime::from_unix_timestamp_nanos(total_nanos) else { continue };
+            // the same instant seen from other offsets (skipped at the edge of the crate's date range)
+            let ti_off = ti.checked_to_offset(time::UtcOffset::from_hms(5, 30, 0).unwrap()).unwrap_or(ti);
+            let ti_neg = ti.checked_to_offset(time::UtcOffset::from_hms(-11, 0, 0).unwrap()).unwrap_or(ti);
+            let ch_bytes = vcore::catch(std::panic::AssertUnwindSafe(|| ser_cell_writer(&ch, &ct)));
+            let mut cells: Vec<(&str, Result<Result<Vec<u8>, String>, String>)> = vec![("chrono::DateTime<Utc>", ch_bytes)];
+            cells.push(("time::OffsetDateTime(UTC)", vcore::catch(std::panic::AssertUnwindSafe(|| ser_cell_writer(&ti, &ct)))));
+            cells.push(("time::OffsetDateTime(+05:30)", vcore::catch(std::panic::AssertUnwindSafe(|| ser_cell_writer(&ti_off, &ct)))));
+            cells.push(("time::OffsetDateTime(-11:00)", vcore::catch(std::panic::AssertUnwindSafe(|| ser_cell_writer(&ti_neg, &ct)))));
+            if total_nanos.rem_euclid(1_000_000) == 0 {
+                let ms = (total_nanos / 1_000_000) as i64;
+                cells.push(("CqlTimestamp", vcore::catch(std::panic::AssertUnwindSafe(|| ser_cell_writer(&CqlTimestamp(ms), &ct)))));
+                cells.push(("reference", Ok(Ok(refv::encode(&t, &Value::Timestamp(ms)).unwrap().framed()))));
+            }
+            let first = cells[0].1.clone();
+            if !matches!(first, Ok(Ok(_))) {
+                r.violation("static-instant:refused:chrono::DateTime<Utc>", &format!("chrono::DateTime<Utc> holding {s}s+{n}ns was not bound to timestamp: {first:?}"), case.clone());
+                continue;
+            }
+            for (name, cell) in &cells {
+                match cell {
+                    Ok(Ok(_)) => {}
+                    other => {
+                        r.violation(&format!("static-instant:refused:{name}"), &format!("{name} holding {s}s+{n}ns was not bound to timestamp: {other:?}"), case.clone());
+                        continue;
+                    }
+                }
+                if *cell != first {
+                    r.violation(
+                        &format!("static-instant:carriers-disagree:{name}"),
+                        &format!("the same instant ({s} s + {n} ns from the epoch) is bound as {} by {} but as {} by {name}", vcore::hex(first.as_ref().unwrap().as_ref().unwrap()), cells[0].0, vcore::hex(cell.as_ref().unwrap().as_ref().unwrap())),
+                        case.clone(),
+                    );
+                } else {
+                    compared += 1;
+                }
+            }
+        }
+    }
+    r.nontrivial(compared);
+    r.counters.add("instant_carrier_pairs_agreeing", compared);
+}
+
 pub fn run(r: &Report) {
+    check_instants(r);
     if r.tier().is_thorough() {
         values::FULL_ALPHABET_LEVEL.store(2, Ordering::Relaxed);
     }
@@ -80,13 +143,18 @@ pub fn run(r: &Report) {
     r.counters.add("cases_deserialized_back_to_same_carrier", st.deser_roundtrips.load(Ordering::Relaxed));
     r.counters.add("short_tuple_encodings_decoded_into_padded_carrier", st.padded_decodes.load(Ordering::Relaxed));
     r.note("min_cases_per_carrier", json!(per_carrier.iter().map(|n| n.load(Ordering::Relaxed)).min().unwrap_or(0)));
-    r.set_rule("E-ENUM, static carriers. Table: 31 owned base carriers (i8..i64, f32/f64, bool, String/Box<str>/Arc<str>, Vec<u8>/Bytes, IpAddr, Uuid, CqlTimeuuid, Counter, CqlDate/Time/Timestamp/Duration, CqlVarint, CqlDecimal, chrono NaiveDate/NaiveTime/DateTime<Utc>, time Date/Time/OffsetDateTime, num-bigint 0.3/0.4 BigInt, bigdecimal BigDecimal) each as T, Option<T>, Box<T>, Arc<T>, Vec<T>, Vec<Option<T>>, Option<Vec<T>>, BTreeMap<i32,T>, HashMap<String,T>, (T,), (T,i32), (String,T,Option<i64>), MaybeUnset<T>, &T, [T]; BTreeSet/BTreeMap-key for Ord carriers, HashSet/HashMap-key for Hash carriers, MaybeEmpty<T> for Emptiable carriers, two-level wrappers for five representatives, secrecy 0.8/0.10 wrappers, and the borrowed carriers &str, &[u8], Cow<str>, Cow<[u8]>, CqlVarintBorrowed, CqlDecimalBorrowed, [u8;N]. For each carrier: every column type it is documented to fit (list/set/vector dim 0..3 for sequences) x every alphabet value the carrier can represent. Every (carrier, column type, value) is run with the column type's collections non-frozen, all frozen and nested-only frozen. distinct_nontrivial = compared cases (non-frozen variant) with a non-null value.");
+    r.set_rule("E-ENUM, static carriers. Table: 31 owned base carriers (i8..i64, f32/f64, bool, String/Box<str>/Arc<str>, Vec<u8>/Bytes, IpAddr, Uuid, CqlTimeuuid, Counter, CqlDate/Time/Timestamp/Duration, CqlVarint, CqlDecimal, chrono NaiveDate/NaiveTime/DateTime<Utc>, time Date/Time/OffsetDateTime, num-bigint 0.3/0.4 BigInt, bigdecimal BigDecimal) each as T, Option<T>, Box<T>, Arc<T>, Vec<T>, Vec<Option<T>>, Option<Vec<T>>, BTreeMap<i32,T>, HashMap<String,T>, (T,), (T,i32), (String,T,Option<i64>), MaybeUnset<T>, &T, [T]; BTreeSet/BTreeMap-key for Ord carriers, HashSet/HashMap-key for Hash carriers, MaybeEmpty<T> for Emptiable carriers, two-level wrappers for five representatives, secrecy 0.8/0.10 wrappers, and the borrowed carriers &str, &[u8], Cow<str>, Cow<[u8]>, CqlVarintBorrowed, CqlDecimalBorrowed, [u8;N]. For each carrier: every column type it is documented to fit (list/set/vector dim 0..3 for sequences) x every alphabet value the carrier can represent. Every (carrier, column type, value) is run with the column type's collections non-frozen, all frozen and nested-only frozen. Instants: 9 second values x 11 sub-second values (incl. pre-epoch with sub-ms and sub-us digits) held by chrono::DateTime<Utc>, time::OffsetDateTime at three UTC offsets and (whole milliseconds) CqlTimestamp must all bind to the same timestamp cell. distinct_nontrivial = compared cases (non-frozen variant) with a non-null value + agreeing instant pairs.");
     r.set_exhaustive(true);
     r.assume("a carrier's logical value is read through harness conversions that never call the crate's conversion impls (chrono/time/bigint built from raw numbers); values a carrier cannot represent (e.g. dates outside chrono's range, Empty for i32) are skipped and counted");
     r.sample(json!({"carrier": "HashMap<String,Vec<Option<i32>>>-style nesting is covered by", "entries": entries.iter().filter(|e| e.name.contains("Vec<Option<i32>>") || e.name.contains("HashMap<i32,Vec<i32>>")).map(|e| e.name.clone()).collect::<Vec<_>>()}));
 }
 
 pub fn replay(r: &Report, case: &serde_json::Value) {
+    if case["part"].as_str() == Some("instants") {
+        println!("replaying the instants part");
+        check_instants(r);
+        return;
+    }
     let name = case["carrier"].as_str().unwrap_or("");
     let t = refv::parse_type(case["type"].as_str().unwrap_or("")).unwrap_or_else(|e| vcore::machinery_error(&format!("replay: bad type: {e}")));
     let v = values::value_from_json(&case["value"]).unwrap_or_else(|e| vcore::machinery_error(&format!("replay: bad value: {e}")));
